@@ -158,4 +158,111 @@ def serve {σ α : Type} [DecidableEq σ] (i : Input σ α) : Response σ α :=
   | .pass info => .next info
   | .reject msg code => .error code msg (challengeFor i.opts code)
 
+/-! ### The request context, stacked middlewares, and the response as sent
+
+`RequireBearerToken` is a middleware: the request it receives may already have been through
+another `RequireBearerToken` (gateway-level + route-level, different verifiers and scopes) or
+through other code of the package that stored a `TokenInfo` in its context, and the
+`ResponseWriter` it writes to snapshots the header map at the first `WriteHeader`. -/
+
+/-- The request context as far as `tokenInfoKey{}` is concerned: the values stored under that key,
+the most recent `context.WithValue` first.  Older values are shadowed, never removed or altered. -/
+abbrev Ctx (σ α : Type) := List (Info σ α)
+
+/-- `TokenInfoFromContext`: the most recently stored value, if any. -/
+def tokenInfoFromContext {σ α : Type} (c : Ctx σ α) : Option (Info σ α) := c.head?
+
+/-- `context.WithValue(r.Context(), tokenInfoKey{}, tokenInfo)` -/
+def withTokenInfo {σ α : Type} (c : Ctx σ α) (info : Info σ α) : Ctx σ α := info :: c
+
+/-- One `RequireBearerToken(verifier, opts)` in a chain of handlers.  The verifier is handed
+`req.Context()` and the request, so it may depend on what the context already holds. -/
+structure Layer (σ α : Type) where
+  verifier : Ctx σ α → List Char → VRes σ α
+  opts : Option (Opts σ)
+  now : Int                          -- time.Now() at this middleware's expiry check
+
+/-- What this middleware's `verify` sees of a request with `Authorization` value `hdr` and context `ctx`. -/
+def Layer.input {σ α : Type} (l : Layer σ α) (hdr : List Char) (ctx : Ctx σ α) : Input σ α :=
+  { header := hdr, verifier := l.verifier ctx, opts := l.opts, now := l.now }
+
+/-- Where a request ends up. -/
+inductive Outcome (σ α : Type) where
+  /-- the handler behind the last middleware runs, with this request context -/
+  | handler (ctx : Ctx σ α)
+  /-- some middleware answered with `http.Error` -/
+  | error (code : Nat) (msg : String) (challenge : Option (List (Param σ)))
+
+/-- A request through middlewares `ls` (outermost first), arriving with context `ctx`:
+each closure either answers itself or calls the next handler with
+`r.WithContext(context.WithValue(r.Context(), tokenInfoKey{}, tokenInfo))`. -/
+def stack {σ α : Type} [DecidableEq σ] (hdr : List Char) : List (Layer σ α) → Ctx σ α → Outcome σ α
+  | [], ctx => .handler ctx
+  | l :: ls, ctx =>
+    match serve (l.input hdr ctx) with
+    | .next info => stack hdr ls (withTokenInfo ctx info)
+    | .error code msg ch => .error code msg ch
+
+/-- One middleware reached by the request: the context it received, the token its verifier was
+called with (if it was called), what it did. -/
+structure Visit (σ α : Type) where
+  ctxIn : Ctx σ α
+  token : Option (List Char)
+  resp : Response σ α
+
+/-- The middlewares the request reaches, in order (the driver renders these). -/
+def visits {σ α : Type} [DecidableEq σ] (hdr : List Char) : List (Layer σ α) → Ctx σ α → List (Visit σ α)
+  | [], _ => []
+  | l :: ls, ctx =>
+    let i := l.input hdr ctx
+    let v : Visit σ α := { ctxIn := ctx, token := (verify i).2, resp := serve i }
+    match serve i with
+    | .next info => v :: visits hdr ls (withTokenInfo ctx info)
+    | .error _ _ _ => [v]
+
+/-- A call the closure makes on its `http.ResponseWriter` when it rejects. -/
+inductive WCall (σ : Type) where
+  /-- `w.Header().Add("WWW-Authenticate", "Bearer "+…)` -/
+  | addChallenge (ps : List (Param σ))
+  /-- `http.Error(w, msg, code)`: content headers, `w.WriteHeader(code)`, `fmt.Fprintln(w, msg)` -/
+  | httpError (msg : String) (code : Nat)
+
+/-- The response as a client receives it. -/
+structure Sent (σ : Type) where
+  status : Nat
+  challenges : List (List (Param σ))   -- the `WWW-Authenticate` values on the wire
+  body : String
+deriving DecidableEq
+
+/-- net/http's `ResponseWriter` (and `httptest.ResponseRecorder.Result`): the header map stays
+editable for ever, but it is snapshotted and sent at the first `WriteHeader`; what is added to the
+map afterwards never reaches the client.  A second `WriteHeader` is ignored, further writes append
+to the body. -/
+structure Writer (σ : Type) where
+  live : List (List (Param σ))         -- `WWW-Authenticate` values in the header map
+  sent : Option (Sent σ)
+
+def Writer.call {σ : Type} (w : Writer σ) : WCall σ → Writer σ
+  | .addChallenge ps => { w with live := w.live ++ [ps] }
+  | .httpError msg code =>
+    match w.sent with
+    | none => { w with sent := some { status := code, challenges := w.live, body := msg ++ "\n" } }
+    | some s => { w with sent := some { s with body := s.body ++ msg ++ "\n" } }
+
+/-- What reaches the client after these calls on a fresh writer (`none`: nothing written). -/
+def sentBy {σ : Type} (calls : List (WCall σ)) : Option (Sent σ) :=
+  (calls.foldl Writer.call { live := [], sent := none }).sent
+
+/-- The writer calls of the closure's rejection path, in source order (structural fact
+`bearer.middleware_shape`): the challenge is added first, `http.Error` comes last. -/
+def rejectCalls {σ : Type} (code : Nat) (msg : String) (ch : Option (List (Param σ))) : List (WCall σ) :=
+  (match ch with
+   | some ps => [WCall.addChallenge ps]
+   | none => []) ++ [WCall.httpError msg code]
+
+/-- The writer calls of the closure itself (the inner handler's own are not the middleware's). -/
+def wcalls {σ α : Type} : Response σ α → List (WCall σ)
+  | .next _ => []
+  | .error code msg ch => rejectCalls code msg ch
+
 end Bearer
